@@ -328,6 +328,36 @@ def nonmutator_calls(seed, n):
     return out
 
 
+def builtin_matrix(seed, n=None):
+    """Every entry of the builtin table applied to every tuple of <= 2 arguments (and sampled triples) from a pool of host
+    values of every plain type and shape: None, booleans, ints, floats, Decimals, strings (empty, non-empty, numeric text),
+    lists / tuples / dicts (empty, nested, int-keyed), a key function, plus one unmodelled object.  One call per scenario;
+    n = None: all pairs."""
+    r = random.Random(seed)
+    pool = {'vn': None, 'vt': True, 'vf': False, 'v0': 0, 'v1': 1, 'vm': -2, 'vb': 10 ** 20, 'vx': 1.5, 'vz': 0.0, 'vd': Decimal('2.5'), 've': Decimal('0'),
+            'se': '', 'sa': 'ab c', 'sn': '12', 'le': [], 'l1': [3, 1, 2], 'ln': [[2, 'b'], [1, 'a'], [2, 'a']], 'ls': ['b', 'a'],
+            'te': (), 't1': (1, [2]), 'de': {}, 'd1': {'b': 1, 'a': [2]}, 'di': {1: 'x', 'k': 2}, 'ob': _HostRecord(n=1)}
+    names = sorted(pool)
+    lams = ['v => v', '(p, q) => q', 'v => 0']
+    fns = sorted(set(NONMUT) | {'push', 'pop', 'insert', 'remove', '__setitem__', '__delitem__', '__setitem_with_op__'})
+    progs = []
+    for f in fns:
+        progs.append('%s()' % f)
+        for a in names:
+            progs.append('%s(%s)' % (f, a))
+            for b in names + lams:
+                progs.append('%s(%s, %s)' % (f, a, b))
+    triples = []
+    for f in fns:
+        for _ in range(60):
+            triples.append('%s(%s, %s, %s)' % (f, r.choice(names), r.choice(names + lams + ['"+="']), r.choice(names + lams)))
+    progs += triples
+    if n is not None and n < len(progs):
+        progs = r.sample(progs, n)
+    import copy
+    return [{'names': [copy.deepcopy(pool)], 'host': {}, 'calls': [{'src': p, 'n': 0, 'max': 200}]} for p in progs]
+
+
 # ---- C14: container operation sequences -------------------------------------------------------
 C14_KEYS = ['0', '1', '1.0', '1.7', '-1', '-1.5', '5', '"1"', '"a"', 'True', 'None', '-3', '-4']
 C14_VALS = ['7', '"z"']
